@@ -3,12 +3,14 @@
     Proofs/LegacyTables.v (and Proofs/LegacyMean.v for the binary64 mean).
     The model (Model/Legacy.v) takes the significance test as a parameter
     [dtest] (its p-values are C11's and C12's subject) and math.Log/math.Exp
-    as oracles. *)
+    as oracles.  Histories on one collection (several Tables() calls with
+    Format calls and further AddConfig in between): Model/LegacyHist.v,
+    Proofs/LegacyHist.v, section "one collection, several reports" below. *)
 From Coq Require Import ZArith Reals List Bool Sorting.Permutation Sorting.Sorted.
 From Flocq Require Import Core BinarySingleNaN.
-From Perf Require Import Base.Bytes Base.Sx Base.B64 Model.StatsF Model.Legacy.
+From Perf Require Import Base.Bytes Base.Sx Base.B64 Model.StatsF Model.Legacy Model.LegacyHist.
 From Perf Require Import Base.FmtFixed Proofs.B64Flocq.
-From Perf Require Import Proofs.Legacy Proofs.LegacySort Proofs.LegacyTables Proofs.LegacyMean.
+From Perf Require Import Proofs.Legacy Proofs.LegacySort Proofs.LegacyTables Proofs.LegacyMean Proofs.LegacyHist.
 Import ListNotations.
 Local Open Scope Z_scope.
 
@@ -223,6 +225,60 @@ Theorem C17_nonzero_means : forall c unit cf,
 Proof. exact nonzero_means_spec. Qed.
 Print Assumptions C17_nonzero_means.
 
+(** ** one collection, several reports
+    A history is any sequence of AddConfig/AddFile/AddResults, Tables() and
+    FormatText/FormatCSV/FormatHTML on one collection.  Every Tables() call
+    reports on exactly the collection built from the configurations added
+    before it, so every theorem above about [build split cfs] holds of each
+    report of a history with [cfs] = the configurations added so far. *)
+Theorem C17_history_reports : forall split ops,
+  hist_reports split empty_coll ops = map (build split) (adds_before_reports [] ops).
+Proof. intros split ops. exact (hist_reports_build split ops []). Qed.
+Print Assumptions C17_history_reports.
+
+(** one report per Tables() call *)
+Theorem C17_history_one_report_per_call : forall ops acc,
+  length (adds_before_reports acc ops)
+  = length (filter (fun op => match op with HTables => true | _ => false end) ops).
+Proof. exact adds_before_reports_length. Qed.
+Print Assumptions C17_history_one_report_per_call.
+
+(** Tables() and the Format functions leave the collection alone *)
+Theorem C17_history_collection : forall split ops,
+  hist_final split empty_coll ops = build split (hist_adds ops).
+Proof. intros split ops. exact (hist_final_build split ops []). Qed.
+Print Assumptions C17_history_collection.
+
+(** computeStats as repaired (RValues emptied first) recomputes the statistics
+    from Unit and Values alone, whatever an earlier call left behind ... *)
+Theorem C17_compute_stats_again : forall u vals rv mn me mx,
+  compute_stats_again (mkMstat u vals rv mn me mx) = compute_stats u vals.
+Proof. exact compute_stats_again_ignores. Qed.
+Print Assumptions C17_compute_stats_again.
+
+Theorem C17_compute_stats_again_idempotent : forall m,
+  compute_stats_again (compute_stats_again m) = compute_stats_again m.
+Proof. exact compute_stats_again_idem. Qed.
+Print Assumptions C17_compute_stats_again_idempotent.
+
+(** ... while the code as it was (RValues appended to) agreed on the first
+    call only: the second Tables() doubles the retained values (n=3+3 becomes
+    n=6+6 and the p-value changes).  Defect of golang/perf, repaired by
+    hooks/fix_c17_tables_twice.diff. *)
+Theorem C17_compute_stats_old_first_call : forall u vals,
+  compute_stats_old (fresh_mstat u vals) = compute_stats u vals.
+Proof. exact compute_stats_old_fresh. Qed.
+Print Assumptions C17_compute_stats_old_first_call.
+
+Theorem C17_tables_twice_old_refuted :
+  exists u vals,
+    let m1 := compute_stats_old (fresh_mstat u vals) in
+    let m2 := compute_stats_old m1 in
+    m_values m2 = m_values m1 /\ length (m_rvalues m1) = 3%nat /\ length (m_rvalues m2) = 6%nat
+    /\ m2 <> compute_stats u vals.
+Proof. exact compute_stats_old_twice_refuted. Qed.
+Print Assumptions C17_tables_twice_old_refuted.
+
 (** ** non-vacuity: a concrete two-configuration collection with an outlier *)
 Definition ex_f (z : Z) : b64 := b64_of_Z z.
 Definition ex_result (v : Z) : result :=
@@ -258,3 +314,11 @@ Example C17_example_mean_guard :
   /\ let big := b64_of_bits 0x7FEFFFFFFFFFFFFF in
      (mean_no_overflow [big; b64_neg big], b64_is_nan (mean_f [big; b64_neg big; big])) = (false, true).
 Proof. vm_compute. split; reflexivity. Qed.
+
+(** a history on the example collection: report, format, add "new", report again *)
+Example C17_example_history :
+  let ops := [HAdd (nth 0 ex_cfs ([], [])); HTables; HFormat 1; HAdd (nth 1 ex_cfs ([], [])); HTables; HTables] in
+  (map c_configs (hist_reports [] empty_coll ops), adds_before_reports [] ops)
+  = ([[bs "old"]; [bs "old"; bs "new"]; [bs "old"; bs "new"]],
+     [firstn 1 ex_cfs; ex_cfs; ex_cfs]).
+Proof. vm_compute. reflexivity. Qed.
